@@ -225,9 +225,45 @@ func (e *Exec) indexRope(r symStr, idx value) value {
 	panic(abortPath{why: "index into opaque string", kind: "unsupported"})
 }
 
+// pinLengths turns opaque tokens whose length is uniquely determined by the path condition into
+// fixed-length pieces (content stays opaque).
+func (e *Exec) pinLengths(r symStr) symStr {
+	var out []piece
+	changed := false
+	for _, x := range r.p {
+		if (x.k == pTok || x.k == pItoa || x.k == pUtoa) && x.n == 0 {
+			_, lenTerm := pieceLenTerm(x)
+			if e.check() == "sat" {
+				e.solver.send("(get-value (" + lenTerm + "))")
+				vals := parseGetValue(e.solver.readSexp())
+				e.pop()
+				if len(vals) == 1 {
+					c := bvValue(vals[0], "(_ BitVec 64)")
+					if n, err := strconv.ParseInt(c, 10, 64); err == nil && n > 0 && n < 1<<20 {
+						if e.valid("(= " + lenTerm + " " + bvConst(n, 64) + ")") {
+							x.n = int(n)
+							changed = true
+						}
+					}
+				}
+			} else {
+				e.pop()
+			}
+		}
+		out = append(out, x)
+	}
+	if !changed {
+		return r
+	}
+	return symStr{p: out, bytes: r.bytes}
+}
+
 func (e *Exec) sliceRope(r symStr, lo, hi value) value {
 	if _, isC := concreteLen(r.p); !isC {
 		r = e.concretizeNumbers(r)
+	}
+	if _, isC := concreteLen(r.p); !isC {
+		r = e.pinLengths(r)
 	}
 	n, ok := concreteLen(r.p)
 	conc := func(v value) int {
